@@ -1,0 +1,7 @@
+//go:build verif
+// +build verif
+
+package rtimer
+
+// Verification hook (build tag verif only): the time wheel's accuracy divisor as the compiler sees it.
+func VerifAccuracy() int { return accuracy }
